@@ -1077,6 +1077,10 @@ func ColumnDefault(c *schema.Column) (cty.Value, error) {
 			switch i, err := strconv.ParseInt(x.V, 10, 64); {
 			case errors.Is(err, strconv.ErrRange):
 				u, err := strconv.ParseUint(x.V, 10, 64)
+				if errors.Is(err, strconv.ErrRange) {
+					// An integer that does not fit in 64 bits.
+					return cty.ParseNumberVal(x.V)
+				}
 				if err != nil {
 					return cty.NilVal, err
 				}
